@@ -90,6 +90,54 @@ pub fn c07_children_d2() {
     children_body(2, 16);
 }
 
+/// Two levels down in ONE call from a quintant cell (resolution 1 → 3: the jump from the non-Hilbert
+/// levels straight into the curve), one symbolic index: children(c, 3)[i] =
+/// spec_child(spec_child(c, i>>2), i&3) and the list has 16 entries. (spec_child is proved equal to the
+/// real one-level expansion by c07_children_d1.) The same statement for parents of resolution 2..27
+/// (symbolic level) ran out of memory at 21 GB RSS / 40 GB address space and is not registered.
+#[kani::proof]
+#[kani::unwind(32)]
+#[kani::stub(alloc::fmt::format, fmt_stub)]
+#[kani::stub(a5::core::serialization::get_resolution, res_stub)]
+pub fn c07_children_d2_r1() {
+    d2_lite_body(1, 1);
+}
+
+/// Same at the deepest pair of levels (resolution 27 → 29, where the marker reaches bit 1).
+#[kani::proof]
+#[kani::unwind(32)]
+#[kani::stub(alloc::fmt::format, fmt_stub)]
+#[kani::stub(a5::core::serialization::get_resolution, res_stub)]
+pub fn c07_children_d2_r27() {
+    d2_lite_body(27, 27);
+}
+
+/// Same at the first Hilbert level (resolution 2 → 4).
+#[kani::proof]
+#[kani::unwind(32)]
+#[kani::stub(alloc::fmt::format, fmt_stub)]
+#[kani::stub(a5::core::serialization::get_resolution, res_stub)]
+pub fn c07_children_d2_r2() {
+    d2_lite_body(2, 2);
+}
+
+fn d2_lite_body(lo: i32, hi: i32) {
+    warm();
+    let c = any_valid_cell_res(lo, hi);
+    let id = ser(&c);
+    let ch = match kids(id, c.resolution + 2) {
+        Some(v) => v,
+        None => return,
+    };
+    assert!(ch.len() == 16);
+    let i: usize = kani::any();
+    kani::assume(i < 16);
+    kani::cover!(c.resolution == hi && i == 15);
+    kani::cover!(c.resolution == lo && i == 6);
+    assert!(ch[i] == spec_child(spec_child(id, (i >> 2) as u64), (i & 3) as u64));
+    core::mem::forget(ch);
+}
+
 /// World cell: 12 base cells at resolution 0, 60 quintants at resolution 1.
 #[kani::proof]
 #[kani::unwind(62)]
